@@ -88,6 +88,9 @@ class RealGraph:
 # ------------------------------------------------------------------------------------------------
 # tensor programs (LeafWalk)
 UN_OPS = [lambda a: a * 2, lambda a: -a, lambda a: a + 1, lambda a: a * a]
+# further single-node realisations of `un` for a complex operand: the result is real
+C_UN_OPS = [lambda a: a.real, lambda a: a.imag, lambda a: a.abs()]
+DTYPES = {"f64": torch.float64, "f32": torch.float32, "c128": torch.complex128, "c64": torch.complex64}
 BIN_OPS = [lambda a, b: a + b, lambda a, b: a * b, lambda a, b: a - b]
 LEAF_SHAPES = [(), (2,), (1, 2), (2, 1)]
 
@@ -97,9 +100,11 @@ class TBuilt:
     gives an identical build, so that a defaulted and an explicit call can be compared on two
     fresh copies of the same graph."""
 
-    def __init__(self, prog: list[dict], seed: int, mode: str = "scalar"):
+    def __init__(self, prog: list[dict], seed: int, mode: str = "scalar", dts: list[str] | None = None):
+        """dts[i-1] = element type of user tensor i (a key of DTYPES; anything else / absent = float64)."""
         rng = random.Random(seed)
         self.prog = prog
+        self.dts = dts
         self.t: list[torch.Tensor] = []
         self._mo: dict[int, tuple] = {}
         for i, nd in enumerate(prog, start=1):
@@ -110,13 +115,16 @@ class TBuilt:
                 for s in shape:
                     n *= s
                 vals = [float(rng.choice([-2, -1, 1, 2, 3])) for _ in range(n)]
-                x = torch.tensor(vals, dtype=DT).reshape(shape)
+                dt = DTYPES.get(dts[i - 1], DT) if dts else DT
+                if dt.is_complex:
+                    vals = [complex(v, float(rng.choice([-2, -1, 1, 2]))) for v in vals]
+                x = torch.tensor(vals, dtype=dt).reshape(shape)
                 x.requires_grad_(k == "leaf")
                 self.t.append(x)
                 continue
             a = self.t[nd["a"] - 1]
             if k == "un":
-                y = rng.choice(UN_OPS)(a)
+                y = rng.choice(UN_OPS + C_UN_OPS if a.is_complex() else UN_OPS)(a)
             elif k == "bin":
                 y = rng.choice(BIN_OPS)(a, self.t[nd["b"] - 1])
             elif k == "det":
@@ -138,10 +146,13 @@ class TBuilt:
         return [i for i, nd in enumerate(self.prog, start=1) if nd["k"] in ("leaf", "const")]
 
     def grads(self) -> dict[int, list | None]:
+        """.grad of every user tensor in a form whose == is exact equality of type, shape and every
+        (real or complex) element, NaN / inf included (what torch.equal decides on finite values)."""
         out = {}
         for i in self.leaves():
             g = self.node(i).grad
-            out[i] = None if g is None else g.detach().reshape(-1).tolist()
+            out[i] = None if g is None else \
+                [str(g.dtype), list(g.shape)] + [repr(v) for v in g.detach().reshape(-1).tolist()]
         return out
 
 
@@ -277,7 +288,8 @@ def calibrate_saves() -> str | None:
 
 def random_life_shape(rng: random.Random) -> dict:
     """A random mtl-shaped life graph (trunk over shared leaves, features, disjoint heads with
-    their own task leaves), larger and less regular than the skeletons of GraphLife.tla."""
+    their own task leaves or - parameter-free heads - none), larger and less regular than the
+    skeletons of GraphLife.tla."""
     g: list[dict] = []
 
     def add(nd) -> int:
@@ -311,17 +323,26 @@ def random_life_shape(rng: random.Random) -> dict:
     feats = sorted({trunk[-1]} | ({rng.choice(side)} if side and rng.random() < 0.5 else set()))
     losses, taskp = [], []
     for h in range(rng.randint(len(feats), 3)):
-        tl = [add({"k": "acc", "c": [], "sz": 1}) for _ in range(rng.randint(1, 2))]
-        cur = op([feats[h % len(feats)], tl[0]])
-        used = {tl[0]}
+        # a head may have no parameter of its own: its loss is computed from the features alone
+        free = rng.random() < 0.35
+        tl = [] if free else [add({"k": "acc", "c": [], "sz": 1}) for _ in range(rng.randint(1, 2))]
+        f0 = feats[h % len(feats)]
+        if tl:
+            cur = op([f0, tl[0]])
+        else:
+            cur = op([f0]) if rng.random() < 0.4 else op([f0, rng.choice(feats)])
+        used = set(tl[:1])
         for _ in range(rng.randint(0, 2)):
             r = rng.random()
             if r < 0.4:
                 cur = op([cur])
             elif r < 0.7:
-                t = rng.choice(tl)
-                used.add(t)
-                cur = op([cur, t])
+                if tl:
+                    t = rng.choice(tl)
+                    used.add(t)
+                    cur = op([cur, t])
+                else:
+                    cur = op([cur, cur])
             else:
                 cur = op([cur, rng.choice(feats)])
         cur = add({"k": "sum", "c": [cur], "sz": 0})
